@@ -569,6 +569,7 @@ func runMerge(c *Ctx, prop string) {
 	var onceBad, keepBad, takeBad []string
 	nKeep, nTake := 0, 0
 	var takeBlocks []*ssa.BasicBlock
+	var takeLoads []ssa.Instruction // the reads of the injected element that is installed
 	// values arriving over the back edges, looking through merge phis inside the loop body
 	// (a counted loop joins the branches in its post block before jumping back)
 	type leaf struct {
@@ -632,6 +633,15 @@ func runMerge(c *Ctx, prop string) {
 		case onlyRoot(X, argRoot):
 			nTake++
 			takeBlocks = append(takeBlocks, call.Block())
+			if ld, ok := el.(*ssa.UnOp); ok {
+				var li ssa.Instruction = ld
+				if sv := soleStoreTo(ld.X); sv != nil {
+					if ld2, ok := sv.(*ssa.UnOp); ok {
+						li = ld2
+					}
+				}
+				takeLoads = append(takeLoads, li)
+			}
 			if idx != dup {
 				takeBad = append(takeBad, "the injected element appended is not the one at the matched index at "+p.Pos(call.Pos()))
 			}
@@ -721,6 +731,27 @@ func runMerge(c *Ctx, prop string) {
 				}
 				if !isTake {
 					bad = append(bad, "an element is removed from the remainder outside the match path")
+				}
+				// the removal shifts the following elements down in place: the matched element must have
+				// been read before
+				for _, ld := range takeLoads {
+					after := false
+					if ld.Block() == call.Block() {
+						for _, x := range call.Block().Instrs {
+							if x == ssa.Instruction(call) {
+								after = true
+								break
+							}
+							if x == ld {
+								break
+							}
+						}
+					} else if call.Block().Dominates(ld.Block()) {
+						after = true
+					}
+					if after {
+						bad = append(bad, "the injected element is read at "+p.Pos(instrPos(ld))+" after the matched element was removed in place at "+p.Pos(call.Pos())+": what is installed is the element that followed it")
+					}
 				}
 				removed++
 			}
